@@ -191,9 +191,7 @@ package internal
 //@ func FromSockaddr
 //@   trusted
 //@   modifies nothing
-//@ func SocketAddress
-//@   trusted
-//@   modifies nothing
+// (SocketAddress: see the constructors section below)
 
 // --- timerfd based timer (C04, C03) ------------------------------------------------------------
 
@@ -260,3 +258,91 @@ package internal
 //@   // whatever the kernel answers, a closed timer is not armed and not counted as pending
 //@   ensures [disarmed] !armed(&t.slot, PollerReadEvent) && !armed(&t.slot, PollerWriteEvent)
 //@   ensures [count] t.poller.pending == old(t.poller.pending) - (old(armed(&t.slot, PollerReadEvent)) ? 1 : 0) - (old(armed(&t.slot, PollerWriteEvent)) ? 1 : 0)
+
+// --- descriptors created by constructors (C13: a constructor that fails leaves the process with
+// exactly the descriptors it had) --------------------------------------------------------------
+// FDOPEN is the ghost table of open descriptors (declared in the root package's contracts): the
+// kernel opens one in socket(2) and releases one in close(2); nothing else in these paths does.
+
+//@ func ext:syscall.Socket
+//@   trusted
+//@   ensures err == nil ==> fd >= 0 && old(FDOPEN[fd]) == 0 && (forall k :: FDOPEN[k] == ((k == fd) ? 1 : old(FDOPEN[k])))
+//@   ensures err != nil ==> (forall k :: FDOPEN[k] == old(FDOPEN[k]))
+//@   modifies FDOPEN
+// kernel assumption: fcntl(F_SETFL) on a descriptor that is open does not fail
+//@ func ext:syscall.SetNonblock
+//@   trusted
+//@   ensures FDOPEN[fd] == 1 ==> err == nil
+//@   modifies nothing
+//@ func ext:syscall.Bind
+//@   trusted
+//@   modifies nothing
+//@ func ext:syscall.Listen
+//@   trusted
+//@   modifies nothing
+//@ func ext:net.ResolveUDPAddr
+//@   trusted
+//@   ensures result1 == nil ==> result0 != nil
+//@   modifies nothing
+//@ func ext:net.ResolveTCPAddr
+//@   trusted
+//@   ensures result1 == nil ==> result0 != nil
+//@   modifies nothing
+//@ func ext:net.IP.IsUnspecified
+//@   trusted
+//@   modifies nothing
+//@ func ApplyOpts
+//@   trusted
+//@   modifies nothing
+
+//@ func socket
+//@   prop C13
+//@   ensures [no-leak] err != nil ==> (forall k :: FDOPEN[k] == old(FDOPEN[k]))
+//@   ensures [opened] err == nil ==> fd >= 0 && old(FDOPEN[fd]) == 0 && (forall k :: FDOPEN[k] == ((k == fd) ? 1 : old(FDOPEN[k])))
+
+//@ func CreateSocketUDP
+//@   prop C13
+//@   ensures [no-leak] err != nil ==> (forall k :: FDOPEN[k] == old(FDOPEN[k]))
+//@   ensures [opened] err == nil ==> fd >= 0 && old(FDOPEN[fd]) == 0 && (forall k :: FDOPEN[k] == ((k == fd) ? 1 : old(FDOPEN[k])))
+
+//@ func CreateSocketTCP
+//@   prop C13
+//@   ensures [no-leak] err != nil ==> (forall k :: FDOPEN[k] == old(FDOPEN[k]))
+//@   ensures [opened] err == nil ==> fd >= 0 && old(FDOPEN[fd]) == 0 && (forall k :: FDOPEN[k] == ((k == fd) ? 1 : old(FDOPEN[k])))
+
+//@ func Listen
+//@   prop C13
+//@   requires len(network) >= 3
+//@   ensures [no-leak] result2 != nil ==> (forall k :: FDOPEN[k] == old(FDOPEN[k]))
+//@   ensures [opened] result2 == nil ==> result0 >= 0 && old(FDOPEN[result0]) == 0 && (forall k :: FDOPEN[k] == ((k == result0) ? 1 : old(FDOPEN[k])))
+
+//@ func ListenUDP
+//@   prop C13
+//@   requires len(network) >= 3
+//@   ensures [no-leak] result2 != nil ==> (forall k :: FDOPEN[k] == old(FDOPEN[k]))
+//@   ensures [opened] result2 == nil ==> result0 >= 0 && old(FDOPEN[result0]) == 0 && (forall k :: FDOPEN[k] == ((k == result0) ? 1 : old(FDOPEN[k])))
+
+// connect(2) with its retry and select loops is outside the contracts: it opens and closes nothing.
+//@ func connect
+//@   trusted
+//@   modifies nothing
+// kernel assumption: getsockname on a descriptor that is an open socket does not fail
+//@ func SocketAddress
+//@   trusted
+//@   ensures FDOPEN[fd] == 1 ==> result1 == nil
+//@   modifies nothing
+
+//@ func ConnectTCP
+//@   prop C13
+//@   ensures [no-leak] err != nil ==> (forall k :: FDOPEN[k] == old(FDOPEN[k]))
+//@   ensures [opened] err == nil ==> fd >= 0 && old(FDOPEN[fd]) == 0 && (forall k :: FDOPEN[k] == ((k == fd) ? 1 : old(FDOPEN[k])))
+
+//@ func ConnectUDP
+//@   prop C13
+//@   ensures [no-leak] err != nil ==> (forall k :: FDOPEN[k] == old(FDOPEN[k]))
+//@   ensures [opened] err == nil ==> fd >= 0 && old(FDOPEN[fd]) == 0 && (forall k :: FDOPEN[k] == ((k == fd) ? 1 : old(FDOPEN[k])))
+
+//@ func ConnectTimeout
+//@   prop C13
+//@   requires len(network) >= 3
+//@   ensures [no-leak] err != nil ==> (forall k :: FDOPEN[k] == old(FDOPEN[k]))
